@@ -62,7 +62,7 @@ def gen_cases(tier, seed):
     except ImportError:
         gens = None
     if gens is not None:
-        total = 2500 if quick else 30000
+        total = 3500 if quick else 36000
         for i in range(total):
             rng = Rng(derive(seed, PROP, "gen", i))
             g = gens.generate(rng, derive(seed, PROP, "genprog", i), single_module=True)
